@@ -467,3 +467,185 @@ func (p *Prog) readerIface() *types.Interface {
 	}
 	return nil
 }
+
+// R18.12 — the spill buffer is invisible. The head of a token that no longer fits the read buffer is saved in a spill
+// buffer; how much of a token lives there depends only on where the refills fell, so (a) every place that starts a token
+// (stores a position into the token-start member) clears the spill buffer on the way there, with no way around the
+// clearing that leads back to the start — a comment skipped by jumping back in front of the token start must not leave
+// its saved `/` behind; and (b) nothing is decided by how much the spill buffer holds, except whether it is empty.
+func c18SpillDiscipline(p *Prog, r *Report) {
+	const rule = "R18.12-spill-buffer"
+	sh := scannerShapeOf(p)
+	if sh == nil {
+		r.Anchor(rule, "the scanner's refill method")
+		return
+	}
+	spill := -1
+	for i := 0; i < sh.st.NumFields(); i++ {
+		if typeIs(sh.st.Field(i).Type(), "bytes", "Buffer") {
+			if spill >= 0 {
+				r.Undec(rule, "scanner:spill-buffer", "-", "the scanner has more than one bytes.Buffer member; which one is the spill buffer is not clear")
+				return
+			}
+			spill = i
+		}
+	}
+	if spill < 0 {
+		r.Anchor(rule, "the scanner's spill buffer (a bytes.Buffer member)")
+		return
+	}
+	var methods []*ssa.Function
+	for _, g := range p.Funcs {
+		if g.Signature.Recv() != nil && namedOf(g.Signature.Recv().Type()) == sh.typ && len(g.Blocks) > 0 {
+			methods = append(methods, g)
+		}
+	}
+	sort.Slice(methods, func(i, j int) bool { return methods[i].String() < methods[j].String() })
+	// the token-start member: an integer member that is set to -1 somewhere and to a computed position elsewhere
+	minus, computed := map[int]bool{}, map[int][]*ssa.Store{}
+	for _, g := range methods {
+		forEachInstr(g, func(in ssa.Instruction) {
+			st, ok := in.(*ssa.Store)
+			if !ok {
+				return
+			}
+			fa, ok := st.Addr.(*ssa.FieldAddr)
+			if !ok || structOf(fa.X.Type()) != sh.st {
+				return
+			}
+			if b, isB := sh.st.Field(fa.Field).Type().Underlying().(*types.Basic); !isB || b.Kind() != types.Int {
+				return
+			}
+			if k, isK := constInt(st.Val); isK {
+				if k == -1 {
+					minus[fa.Field] = true
+				}
+				return
+			}
+			computed[fa.Field] = append(computed[fa.Field], st)
+		})
+	}
+	start := -1
+	for f := range minus {
+		if len(computed[f]) > 0 && f != sh.curField && sh.posInts[f] == "" {
+			if start >= 0 {
+				start = -2
+			} else {
+				start = f
+			}
+		}
+	}
+	if start < 0 {
+		r.Undec(rule, "scanner:token-start", "-", "the member that marks where the current token starts (set to -1 between tokens) was not identified")
+		return
+	}
+	isSpillCall := func(in ssa.Instruction, name string) bool {
+		cl, ok := in.(*ssa.Call)
+		if !ok {
+			return false
+		}
+		f := cl.Call.StaticCallee()
+		if f == nil || fnPkgPath(f) != "bytes" || f.Name() != name || len(cl.Call.Args) == 0 {
+			return false
+		}
+		fa, ok := cl.Call.Args[0].(*ssa.FieldAddr)
+		return ok && fa.Field == spill && structOf(fa.X.Type()) == sh.st
+	}
+	// (a)
+	for _, st := range computed[start] {
+		fn := st.Parent()
+		if fn == sh.adv {
+			continue // the refill method moves the start when it shifts the buffer; it saves the text first (R18.2)
+		}
+		// a token starts where the read cursor is: the stored position is computed from the cursor (moving the mark to
+		// the token's end after its text was saved is not a start)
+		fromCursor := false
+		var walk func(v ssa.Value, d int)
+		walk = func(v ssa.Value, d int) {
+			if d > 4 || fromCursor {
+				return
+			}
+			if f, base, ok := fieldOfLoad(v); ok && f == sh.curField && structOf(base.Type()) == sh.st {
+				fromCursor = true
+				return
+			}
+			if bo, ok := v.(*ssa.BinOp); ok {
+				walk(bo.X, d+1)
+				walk(bo.Y, d+1)
+			}
+		}
+		walk(st.Val, 0)
+		if !fromCursor {
+			continue
+		}
+		var resets []*ssa.BasicBlock
+		forEachInstr(fn, func(in ssa.Instruction) {
+			if isSpillCall(in, "Reset") {
+				resets = append(resets, in.Block())
+			}
+		})
+		ok := false
+		for _, rb := range resets {
+			if rb == st.Block() {
+				ok = true
+				break
+			}
+			if !rb.Dominates(st.Block()) {
+				continue
+			}
+			// no way from the start back to the start that avoids the clearing
+			seen := map[*ssa.BasicBlock]bool{rb: true}
+			work := append([]*ssa.BasicBlock{}, st.Block().Succs...)
+			cyc := false
+			for len(work) > 0 {
+				b := work[len(work)-1]
+				work = work[:len(work)-1]
+				if seen[b] {
+					continue
+				}
+				seen[b] = true
+				if b == st.Block() {
+					cyc = true
+					break
+				}
+				work = append(work, b.Succs...)
+			}
+			if !cyc {
+				ok = true
+				break
+			}
+		}
+		r.Check(ok, rule, fnQual(fn)+":token-start", p.pos(st.Pos()), "the spill buffer is cleared on every way to this token start",
+			fnShort(fn)+" starts a token here, but the spill buffer is not cleared on every way to this point (a jump back in front of the token start goes around the clearing): what a refill saved for the skipped text — the `/` of a comment that straddles a buffer boundary — is prepended to the next token, so the token text depends on where the reads fell")
+	}
+	// (b)
+	for _, g := range methods {
+		forEachInstr(g, func(in ssa.Instruction) {
+			if !isSpillCall(in, "Len") && !isSpillCall(in, "Cap") && !isSpillCall(in, "Available") {
+				return
+			}
+			v := in.(ssa.Value)
+			good := true
+			for _, u := range *v.Referrers() {
+				bo, isBO := u.(*ssa.BinOp)
+				if !isBO {
+					if _, isDbg := u.(*ssa.DebugRef); isDbg {
+						continue
+					}
+					good = false
+					continue
+				}
+				o := bo.Y
+				if o == v {
+					o = bo.X
+				}
+				k, isK := constInt(o)
+				if !isK || k != 0 || (bo.Op != token.EQL && bo.Op != token.NEQ && bo.Op != token.GTR && bo.Op != token.LEQ) {
+					good = false
+				}
+			}
+			r.Check(good, rule, fnQual(g)+":spill-size", p.pos(in.Pos()), "the spill buffer is only asked whether it is empty",
+				fnShort(g)+" decides something by how much the spill buffer holds: that amount is the part of the token that was read before the last refill — it depends on the chunking of the input, not on the token, so the same document is accepted or rejected depending on where the reads fell")
+		})
+	}
+}
